@@ -324,3 +324,11 @@ Definition default_config : config :=
      c_ec := bool_default F_ec; c_dg := bool_default F_dg; c_wtmax := default_field F_wtmax |}.
 Definition builder_config (r : role) (calls : list (setter * N)) : config :=
   fold_left (apply_call r) calls default_config.
+
+(* Builder::build: `self.config` (a Copy value) is handed to ConnectionInner::new, which stores it and sends the control
+   stream header from it; the builder itself is left as it is and can be used again.  (connection's config, builder after) *)
+Definition builder_build (c : config) : config * config := (c, c).
+Definition build_twice (r : role) (calls1 calls2 : list (setter * N)) : config * config :=
+  let (c1, b1) := builder_build (builder_config r calls1) in
+  let (c2, _) := builder_build (fold_left (apply_call r) calls2 b1) in
+  (c1, c2).
